@@ -174,7 +174,7 @@ pub fn run_case(a: &Args, tag: &'static str, idx: u64, acc: &mut Acc) {
         let mut top = op.clone();
         match &mut top {
             Op::CreateDir(x) | Op::RemoveFile(x) | Op::RemoveDir(x) | Op::ReadDir(x) | Op::Metadata(x) | Op::Exists(x) | Op::IsFile(x) | Op::IsDir(x) | Op::CreateDirAll(x) | Op::RemoveDirAll(x) | Op::ReadToString(x) | Op::WalkDir(x) => *x = tr(x),
-            Op::CreateFile(x, _) | Op::AppendFile(x, _) | Op::OpenRead(x, _) | Op::SetTime(x, ..) => *x = tr(x),
+            Op::CreateFile(x, _) | Op::AppendFile(x, _) | Op::OpenRead(x, _) | Op::SetTime(x, ..) | Op::HoldOpen(x, ..) | Op::Publish(x) => *x = tr(x),
             Op::CopyFile(x, y) | Op::MoveFile(x, y) | Op::CopyDir(x, y) | Op::MoveDir(x, y) => {
                 *x = tr(x);
                 *y = tr(y);
